@@ -297,14 +297,14 @@ def rule_spline_root(prog: Program, rep: Report):
         _eq.BUDGET_LIMIT = old
 
 
-def rule_planar_inverse(prog: Program, rep: Report):
+def rule_planar_inverse(prog: Program, rep: Report, R="C01.planar"):
     """Leaky-relu planar layer: transform(inverse(y)) == y within a slope branch, as a scalar identity.
     inverse(y) = y + alpha * u^ ; with P = w.y, q = w.u^, s the slope selected from sign(P + b):
     z' = w.inverse(y) + b = P + b + alpha q, and transform adds u^ * s z'  =>  alpha + s z' == 0."""
     from ..eqterms import Inconclusive, Poly, Rat, rat_equal, to_rat
     from . import bij, c02
     from ..terms import Interp, mk_pow
-    rep.rule("C01.planar", "planar layer with leaky-relu: inverse(y) = y + alpha*u^ with alpha(1 + s w.u^) + s(w.y + b) == 0 "
+    rep.rule(R, "planar layer with leaky-relu: inverse(y) = y + alpha*u^ with alpha(1 + s w.u^) + s(w.y + b) == 0 "
                            "(exact scalar identity using linearity of the dot product), so transform(inverse(y)) == y in "
                            "each slope branch; the slope is selected from the sign of w.y + b; both inverse methods raise for any other activation", minimum=4)
     c = prog.cls("flowjax.bijections.planar._UnconditionalPlanar")
@@ -316,7 +316,7 @@ def rule_planar_inverse(prog: Program, rep: Report):
         itg = Interp(prog)
         itg.eval_method(c, mname, [X, ("sym", "COND")])
         gs = [g for g in itg.guards if g[0] == "raise-if" and not (len(g) > 4 and g[4])]
-        rep.check(any(equal(g[1], want_g) for g in gs), "C01.planar", method_site(prog, c, mname),
+        rep.check(any(equal(g[1], want_g) for g in gs), R, method_site(prog, c, mname),
                   f"planar:{mname}:refuses-non-leaky-activation",
                   "raises unless activation == 'leaky_relu'",
                   f"{mname} has no unconditional guard raising when activation != 'leaky_relu' (guards: "
@@ -327,11 +327,11 @@ def rule_planar_inverse(prog: Program, rep: Report):
     U = bij.commute_rank1(Interp(prog).eval_method(c, "get_act_scale", []), r1)
     w, b = ("attr", SELF, "weight"), ("attr", SELF, "bias")
     if I[0] != "add":
-        rep.undecided("C01.planar", site, "planar:inverse-form", f"inverse is {show(I, 200)}")
+        rep.undecided(R, site, "planar:inverse-form", f"inverse is {show(I, 200)}")
         return
     rest = [t for t in I[1] if not same(t, X)]
     if len(rest) != 1 or rest[0][0] != "mul" or not any(same(f, U) for f in rest[0][1]):
-        rep.undecided("C01.planar", site, "planar:inverse-form", f"inverse is not y + alpha * u^: {show(I, 240)}")
+        rep.undecided(R, site, "planar:inverse-form", f"inverse is not y + alpha * u^: {show(I, 240)}")
         return
     factors = [f for f in rest[0][1] if not same(f, U)]
     fr = c02.field_ranks(prog, c)
@@ -340,13 +340,13 @@ def rule_planar_inverse(prog: Program, rep: Report):
     wx = ("matmul", w, X) if key(w) < key(X) else ("matmul", X, w)
     slopes = [s for s in walk(rest[0]) if s[0] == "call" and s[1] == ("ext", "jax.numpy.where")]
     if len({key(s) for s in slopes}) != 1:
-        rep.undecided("C01.planar", site, "planar:slope", f"expected one slope selector, found {len(slopes)}")
+        rep.undecided(R, site, "planar:slope", f"expected one slope selector, found {len(slopes)}")
         return
     slope = slopes[0]
     skw = dict(slope[3])
     num = mk_add((wx, b))
     ok_s = skw.get("condition") == ("cmp", "<", num, C(0)) and skw.get("x") == ("attr", SELF, "negative_slope") and skw.get("y") == C(1)
-    rep.check(ok_s, "C01.planar", site, "planar:slope-from-sign(w.y+b)", "s = negative_slope if w.y + b < 0 else 1",
+    rep.check(ok_s, R, site, "planar:slope-from-sign(w.y+b)", "s = negative_slope if w.y + b < 0 else 1",
               f"slope selector is {show(slope, 160)}")
 
     def scal(t):
@@ -369,15 +369,15 @@ def rule_planar_inverse(prog: Program, rep: Report):
         return subst(t, lambda s2: P if same(s2, wx) else None)           # 3. w.y
     alpha = scal(mk_mul(tuple(factors)))
     if any(s2[0] == "matmul" for s2 in walk(alpha)):
-        rep.undecided("C01.planar", site, "planar:alpha", f"coefficient of u^ not reduced to scalars: {show(alpha, 200)}")
+        rep.undecided(R, site, "planar:alpha", f"coefficient of u^ not reduced to scalars: {show(alpha, 200)}")
         return
     lhs = mk_add((mk_mul((alpha, mk_add((C(1), mk_mul((S, Q)))))), mk_mul((S, mk_add((P, b))))))
     try:
         ok = rat_equal(lhs, C(0))
     except Inconclusive as e:
-        rep.undecided("C01.planar", site, "planar:identity", str(e))
+        rep.undecided(R, site, "planar:identity", str(e))
         return
-    rep.check(ok, "C01.planar", site, "planar:transform(inverse(y))==y",
+    rep.check(ok, R, site, "planar:transform(inverse(y))==y",
               f"alpha = {show(alpha, 120)}",
               f"with inverse(y) = y + alpha*u^, alpha = {show(alpha, 160)}: alpha(1 + s q) + s(P + b) != 0, so "
               f"transform(inverse(y)) != y")
